@@ -161,6 +161,17 @@ def calendar_producers_rule(ctx, rule: str) -> None:
                   f"cal_info: {a}, parser: {b}", loc=ci.loc(), witness={"field": f, "cal_info": a, "parser": b, "expected": d})
     two_digit_year_rule(ctx, rule)
     date_from_doy_rule(ctx, rule)
+    # the parser re-derives every calendar field from `date`: a date may therefore only come from information that fixes the day -
+    # year + day of the year, year + month + day, or today when nothing was parsed.  (A week number fixes a week, not a day: the
+    # derived fields would replace the parsed year / week, e.g. week 0 lies in the previous December.)
+    allowed = ("None", "version.date_from_doy(year_y, doy)", "date_from_doy(year_y, doy)", "dt.date(year_y, month, dom)", "datetime.date(year_y, month, dom)", "version.TODAY", "TODAY")
+    for st, tg, v in shapes.iter_assigns(pf.node):
+        if isinstance(tg, ast.Name) and tg.id == "date" and v is not None:
+            alts = [v.body, v.orelse] if isinstance(v, ast.IfExp) else [v]
+            for a_ in alts:
+                txt = unparse(a_)
+                ctx.check(rule, txt in allowed, f"parse_field_values_to_cinfo: date := {txt}", "v2version.parse_field_values_to_cinfo: a date is derived from fields that do not fix a day",
+                          f"`date = {txt[:70]}`: every calendar field is then re-derived from that date and replaces what was parsed", loc=pf.loc(st), witness={"version": "2021.0.1001", "pattern": "YYYY.WW.BUILD"})
     q = tab1.get("quarter")
     from sa import formats as _fm
     qt = _fm.month_table(prog, ci, q, ci.params[0]) if q is not None else None
